@@ -195,6 +195,7 @@ func readBattery(s *slot) []Op {
 }
 
 func TestC16(t *testing.T) {
+	noAliasing = true // harness bookkeeping that goroutines must not share
 	stats.Property = "C16"
 	replayRegressions(t, "C16")
 	stats.Rule = "built with -race. Part A: 2..8 goroutines, each owning 1..3 trees of mixed kinds, re-execute at the same time the histories rapid generated for them (heavy grow/shrink churn through the shared node pool); Part B: one byte-string, numeric or compound tree is built, then 2..8 goroutines run generated read-only query mixes on it. GOMAXPROCS in {1,2,4,16} and Gosched injection points are drawn per case; " +
@@ -285,6 +286,10 @@ func TestC16(t *testing.T) {
 
 func init() {
 	customReplays["C16"] = func(tr *Trace) error {
+		noAliasing = true
+		if tr.Params["part"] == "C-hammer" {
+			return replayHammer(tr)
+		}
 		c := &c16Case{part: tr.Params["part"], kinds: tr.Kinds, ops: tr.Ops}
 		c.procs, _ = strconv.Atoi(tr.Params["gomaxprocs"])
 		c.yieldK, _ = strconv.Atoi(tr.Params["yield"])
